@@ -348,6 +348,8 @@ class Ops:
             t = self.interp.truth(v)
             if t is not None:
                 return Const(not t)
+            if isinstance(v, (SetV, ListV)) and v.items is None and self.atoms_of(v):
+                return TV(kind="pybool", dtype="Bool", note="nonempty?" + "+".join(sorted(self.atoms_of(v))) + "|neg")
             tv = tv_of(v)
             if tv is not None:
                 return tv.but(kind="pybool" if tv.is_py else tv.kind, dtype="Bool", poly=None)
@@ -469,6 +471,22 @@ class Ops:
         return None
 
     def decide_test(self, test_expr, val, env):
+        return None
+
+    def test_key(self, val, cmps, test_expr):
+        """(key, negated) identifying the symbolic question asked by a test, or None."""
+        sc = [c for c in cmps if c["kind"] == "size_compare"]
+        if len(sc) == 1 and len(cmps) == 1 and not isinstance(test_expr, (ast.BoolOp,)):
+            neg = isinstance(test_expr, ast.UnaryOp) and isinstance(test_expr.op, ast.Not)
+            op = sc[0]["op"]
+            canon = {"NotEq": ("Eq", True), "GtE": ("Lt", True), "LtE": ("Gt", True)}.get(op, (op, False))
+            return (f"{canon[0]}:{sc[0]['diff']}", canon[1] ^ neg)
+        if isinstance(val, TV) and val.note.startswith("nonempty?"):
+            return (val.note.split("|")[0], val.note.endswith("|neg"))
+        if isinstance(val, (SetV, ListV)) and val.items is None:
+            at = sorted(self.atoms_of(val))
+            if at:
+                return ("nonempty?" + "+".join(at), False)
         return None
 
     def assume(self, test_expr, truth, env):
